@@ -102,6 +102,8 @@ def generate(rng, tier):
           "over": r.choice(["1.3", "1.3", "1.2"]), "dseed": r.getrandbits(32),
           "hs": {"c_cuts": _cuts(r), "o_cuts": _cuts(r), "connect_delay": r.choice([0, 0.001, 0.05])},
           "c": _side(r), "o": _side(r)}
+    if sc["strategy"] == "lazy" and mode != "reverse_tls" and not sc["c"]["first"]:
+        sc["c"]["first"] = _op(r, True)  # a lazy proxy connects upstream only once the inner layer sees client data
     who = r.choice(["c", "o"])
     sc["close"] = {"who": who, "kind": r.choice(["notify", "notify", "fin", "notify_fin"]),
                    "tail": _op(r, True) if r.random() < 0.7 else None,
@@ -280,6 +282,9 @@ def _execute(sc):
             if O.end is not None and O.ops_done.is_set():
                 break
             await asyncio.sleep(0.05)
+        if O.end is None and C.pos == 0 and sc["strategy"] == "lazy":
+            log.append(("lazy_no_client_data",))  # nothing asked the proxy to connect upstream: trivial run
+            return
         if O.end is None or O.failed or not O.ops_done.is_set():
             violate("handshake_failed", {"side": "origin", "err": (O.failed or "never connected").split(":")[-1][:60]},
                     f"origin side did not get through the handshake: {O.failed}")
@@ -337,9 +342,23 @@ def _execute(sc):
                 break
             await asyncio.sleep(0.1)
         dirn = "c2o" if A is C else "o2c"
+        def socket_left_open(X):
+            # the proxy announced the end of that connection (…_disconnected hook) yet never closed the socket
+            name = "client_disconnected" if X is C else "server_disconnected"
+            return any(n == name for _, n, _ in w.hooks) and not X.conn.proxy_closed
+
         if not B.end.closed_in:
-            violate("close_not_delivered", {"closer": A.name, "kind": kind},
-                    f"{A.name} ended with {kind} but {B.name} saw no close within 10 s; {B.name} has {len(B.end.plain)} of {A.pos} bytes")
+            log.append(("far_close_missing", A.name, kind))
+            if kind == "fin":
+                # the statement speaks about close_notify only; a bare FIN that is not relayed is just counted
+                probe("bare_fin_not_relayed")
+                compare(dirn, B.end.plain, A.data[:A.pos], "close", True)
+                return
+            violate("close_not_delivered",
+                    {"closer": A.name, "socket_left_open_after_disconnected_hook": socket_left_open(B)},
+                    f"{A.name} ended with {kind} but {B.name} saw no close within 10 s; {B.name} has "
+                    f"{len(B.end.plain)} of {A.pos} bytes; proxy_closed={B.conn.proxy_closed} rx_eof={B.conn.rx_eof}")
+            return
         else:
             ev = B.end.events[-1]
             log.append(("far_close", ev[0], ev[1], A.pos))
@@ -365,8 +384,14 @@ def _execute(sc):
         if okr and len(A.end.plain) == B.pos and B.pos > sent_at_sync[B.name]:
             probe("reverse_complete_after_first_close")
         if not A.end.closed_in:
-            violate("close_not_delivered", {"closer": B.name, "kind": close["other_kind"], "second": True},
-                    f"second close ({close['other_kind']} by {B.name}) never reached {A.name}")
+            if close["other_kind"] == "fin":
+                probe("bare_fin_not_relayed")
+            else:
+                violate("close_not_delivered",
+                        {"closer": B.name, "second": True,
+                         "socket_left_open_after_disconnected_hook": socket_left_open(A)},
+                        f"second close ({close['other_kind']} by {B.name}) never reached {A.name}; "
+                        f"proxy_closed={A.conn.proxy_closed} rx_eof={A.conn.rx_eof}")
         log.append(("end", len(C.end.plain), len(O.end.plain), C.end.events[-1][0] if C.end.events else None,
                     O.end.events[-1][0] if O.end.events else None))
         await asyncio.sleep(1.0)
@@ -404,8 +429,12 @@ def _execute(sc):
     ev = []
     for A in (C, O):
         if A.end is not None:
-            ev.append((A.name, [k for k, _ in A.end.events if k != "data"], len(A.end.plain), A.end.raw_in, A.end.raw_out))
-    dg = W.digest([sc["mode"], hooks, nmsg, log, ev, sorted((v["class"], sorted(v["key"].items())) for v in viol)])
+            # abstract events only: ciphertext lengths are not reproducible (session tickets vary by a few bytes)
+            ev.append((A.name, [k for k, _ in A.end.events if k != "data"], len(A.end.plain)))
+    items = [sc["mode"], hooks, nmsg, log, ev, sorted((v["class"], sorted(v["key"].items())) for v in viol)]
+    dg = W.digest(items)
+    if sc.get("_debug"):
+        print("digest items", items)
     nontrivial = C.pos > 0 and O.pos > 0 and (probes.get("multi_record_flight", 0) + probes.get("cut_flight", 0)) > 0
     return {"violations": viol, "digest": dg, "nontrivial": nontrivial,
             "faults": {k: v for k, v in w.net.faults_fired.items()}, "probes": probes,
